@@ -15,7 +15,7 @@ from harness import fgen, rdriver
 from harness.abstraction import Catalog
 from harness.checks import _rcommon
 
-KEYS = ['x', 'len', 'lengths', 'xlength', 'Encoding', 'ENCODING', 'length-', 'a_b-c9', 'Z', 'q' * 60,
+KEYS = ['keep_bytes', 'preserve_trailing_newline', 'self', 'fp', 'newline', 'content', 'x', 'len', 'lengths', 'xlength', 'Encoding', 'ENCODING', 'length-', 'a_b-c9', 'Z', 'q' * 60,
         'line-endings', 'indent_', 'formatx', 'version2', 'mimetypes', 'typ', 'e', 'n0']
 VALS = ['1', '0', '007', '-5', '-0', 'abc', 'a/b/c', '../x', 'v1.2.3', '-', '_', '.', '/', 'utf-8', 'dos',
         'json', 'x' * 60, '12a', 'a12', '1.0', '1-2', '99999999', '2147483648', '123456789012',
